@@ -502,14 +502,20 @@ func genCase(rt *rapid.T) *Case {
 	}
 	var unks []unk
 	ignoreOK := p.Permit // ignore is only specified for permits
+	emptyNameUsed := false
 	choose := func(part string, base ir.Value) ir.Value {
 		k := rapid.IntRange(0, 9).Draw(rt, part+"mode")
 		switch {
 		case k < 4:
 			return base
 		case k < 8 || !ignoreOK:
-			unks = append(unks, unk{part, candidates(rt, base, ents, others, w.Store, part)})
-			return mkVar(part)
+			name := part
+			if !emptyNameUsed && rapid.IntRange(0, 5).Draw(rt, part+"emptyname") == 0 {
+				// the empty string is a variable name like any other
+				name, emptyNameUsed = "", true
+			}
+			unks = append(unks, unk{name, candidates(rt, base, ents, others, w.Store, part)})
+			return mkVar(name)
 		default:
 			unks = append(unks, unk{"ignore:" + part, candidates(rt, base, ents, others, w.Store, part)})
 			return mkIgnore()
